@@ -530,6 +530,17 @@ func (u *Unit) ctxParts(taken bool, cond ast.Expr) []string {
 		sort.Strings(alts)
 		return []string{"any(" + strings.Join(alts, "|") + ")"}
 	}
+	if id, ok := cond.(*ast.Ident); ok && u.ctxHops < 3 {
+		// a condition cached in a local (`has := x != nil; if has`) is still that condition
+		if rhs := u.uniqueLocalDef(id); rhs != nil {
+			switch ast.Unparen(rhs).(type) {
+			case *ast.BinaryExpr, *ast.UnaryExpr:
+				u.ctxHops++
+				defer func() { u.ctxHops-- }()
+				return u.ctxParts(taken, rhs)
+			}
+		}
+	}
 	text := ""
 	if be, ok := cond.(*ast.BinaryExpr); ok {
 		op := ""
@@ -667,11 +678,11 @@ func (u *Unit) helperResultShape(e ast.Expr, idx, depth int) string {
 		return ""
 	}
 	f = f.Origin()
-	if f.Exported() && !u.eng.isNewFunc(f) {
-		return ""
-	}
 	hd := u.prog.Funcs[f]
 	if hd == nil || hd == u.Fn {
+		return ""
+	}
+	if f.Exported() && !u.eng.isNewFunc(f) && !isOneLiner(hd) {
 		return ""
 	}
 	hu := u.eng.UnitOf(hd)
@@ -694,4 +705,14 @@ func (u *Unit) helperResultShape(e ast.Expr, idx, depth int) string {
 	u.eng.helperNest++
 	defer func() { u.eng.helperNest-- }()
 	return newParamSubst(u, c).apply(hu.argShape(ret.Results[idx], ret, depth))
+}
+
+// isOneLiner: the body is a single `return <expr>`: such a function is an abbreviation of that expression,
+// and writing the expression out (or the reverse) changes nothing.
+func isOneLiner(fd *FuncDecl) bool {
+	if fd.Decl.Body == nil || len(fd.Decl.Body.List) != 1 {
+		return false
+	}
+	ret, ok := fd.Decl.Body.List[0].(*ast.ReturnStmt)
+	return ok && len(ret.Results) == 1
 }
